@@ -47,7 +47,7 @@ def die(msg, code=2):
 
 def build(packages=None):
     """Rebuild the simulators (and rbpf, a path dependency on /repo) from the current tree."""
-    cmd = ["cargo", "build", "--release", "--offline"]
+    cmd = ["cargo", "build", "--release", "--offline", "--target-dir", TARGET]
     for p in packages or []:
         cmd += ["-p", p]
     t0 = time.time()
